@@ -33,6 +33,12 @@ func (a *AuditLogIngester) Ingest(ctx context.Context) error {
 }
 
 func (a *AuditLogIngester) Process(ctx context.Context, line string) error {
-	a.AuditLogChan <- line
-	return nil
+	// Do not block forever when the consumer has stopped and the
+	// channel's buffer is full: give up once the context is done.
+	select {
+	case <-ctx.Done():
+		return ctx.Err()
+	case a.AuditLogChan <- line:
+		return nil
+	}
 }
